@@ -34,6 +34,12 @@ PYFOLD = {"+": operator.add, "-": operator.sub, "*": operator.mul, "/": operator
 
 STATIC_HEADS = ("sym", "glob")
 
+# declared annotations that are known to be inaccurate; each override is justified by the single writer of the
+# registry (checked by R-DUP-NAME / C18): add_objective(objective: Objective) is the only writer of `objectives`
+FIELD_TYPE_OVERRIDES = {
+    ("SchedulingProblem", "objectives"): ("dict", ("prim", "str"), ("cls", "Objective")),
+}
+
 
 class ExprMixin:
     # ------------------------------------------------------------------
@@ -72,6 +78,15 @@ class ExprMixin:
         if isinstance(v, SuperRef):
             return ("super", self.to_term(v.self_obj))
         return ("unk", f"value {type(v).__name__}")
+
+    def guard_term(self, v):
+        """term of a value used as a python-level condition whose truth is not decided"""
+        if isinstance(v, (PyList, PyDict)):
+            items = v.items if isinstance(v, PyList) else v.entries
+            if not items:
+                return app("nonempty", ("unk", "container filled by another iteration of the enclosing loop"))
+            return app("nonempty", self.to_term(v))
+        return self.to_term(v)
 
     def ref_term(self, v):
         """term used when a container is *referred to* (subscripted, iterated): its origin if it has one"""
@@ -114,6 +129,9 @@ class ExprMixin:
             bt = self.typeof(t[1])
             res = []
             for cname in P.type_classes(bt) if bt else []:
+                if (cname, t[2]) in FIELD_TYPE_OVERRIDES:
+                    return FIELD_TYPE_OVERRIDES[(cname, t[2])]
+            for cname in P.type_classes(bt) if bt else []:
                 ci = self.project.classes.get(cname)
                 if ci is None:
                     continue
@@ -128,7 +146,7 @@ class ExprMixin:
                 return None
             return self._narrow(t, P.t_union(res))
         if k == "elem":
-            return self._elem_type(t[1][3])
+            return self._narrow(t, self._elem_type(t[1][3]))
         if k == "idx":
             bt = self.typeof(t[1])
             if bt is None:
@@ -219,6 +237,39 @@ class ExprMixin:
         out = P.t_union(res) if res else None
         self._ptype_cache[key] = out
         return out
+
+    PYDANTIC_ATTRS = {"model_dump_json", "model_dump", "model_validate_json", "model_validate", "model_fields", "model_config",
+                      "model_copy", "copy", "dict", "json"}
+
+    def has_attr(self, ci, name) -> bool:
+        """does class ci (its MRO) declare `name`: field, method, class attribute or an attribute some method assigns"""
+        key = ("has", ci.name, name)
+        if key in self._ptype_cache:
+            return self._ptype_cache[key]
+        res = name in self.PYDANTIC_ATTRS
+        for c in ci.mro:
+            if res:
+                break
+            if name in c.fields or name in c.methods:
+                res = True
+                break
+            for st in c.node.body:
+                if isinstance(st, ast.Assign) and any(isinstance(t, ast.Name) and t.id == name for t in st.targets):
+                    res = True
+            for fn in c.methods.values():
+                for n in ast.walk(fn):
+                    tg = []
+                    if isinstance(n, ast.Assign):
+                        tg = n.targets
+                    elif isinstance(n, (ast.AugAssign, ast.AnnAssign)):
+                        tg = [n.target]
+                    for t in tg:
+                        for x in ast.walk(t):
+                            if isinstance(x, ast.Attribute) and isinstance(x.value, ast.Name) and x.value.id == "self" \
+                                    and x.attr == name and isinstance(x.ctx, ast.Store):
+                                res = True
+        self._ptype_cache[key] = res
+        return res
 
     def _rhs_type(self, v, module):
         if isinstance(v, ast.Call):
@@ -343,6 +394,9 @@ class ExprMixin:
             if any(not it.loops and not it.guards for it in v.items):
                 return True
             if not v.items:
+                # a list created outside the loop being translated may have been filled by an earlier iteration
+                if len(self.loops) > len(v.base_loops):
+                    return None
                 return False
             return None
         if isinstance(v, PyDict):
@@ -613,7 +667,7 @@ class ExprMixin:
             t = self.truth(v)
             if t is not None:
                 return K(not t)
-            return app("not", self.to_term(v))
+            return app("not", self.guard_term(v))
         v = self.to_term(v)
         if isinstance(node.op, ast.USub):
             if is_const(v) and isinstance(v[1], (int, float)):
@@ -761,6 +815,11 @@ class ExprMixin:
         for ci in cls_list:
             if name in ci.all_fields():
                 return t
+        if cls_list and not name.startswith("__") and node is not None:
+            missing = [ci.name for ci in cls_list if not self.has_attr(ci, name)]
+            if missing:
+                self.event("attr-unresolved", {"base": base, "attr": name, "classes": tuple(missing),
+                                               "all_classes": tuple(ci.name for ci in cls_list)}, node)
         if name in ("split", "join", "format", "strip", "encode", "as_long", "startswith", "endswith",
                     "values", "keys", "items", "get", "copy", "strftime", "count", "size", "get_name", "get_kind",
                     "get_documentation"):
